@@ -615,10 +615,12 @@ static void ZSTDMT_serialState_update(serialState_t* serialState,
         }
         if (serialState->params.fParams.checksumFlag && src.size > 0)
             XXH64_update(&serialState->xxhState, src.start, src.size);
+        /* Now it is the next jobs turn */
+        serialState->nextJobID++;
+        ZSTD_pthread_cond_broadcast(&serialState->cond);
     }
-    /* Now it is the next jobs turn */
-    serialState->nextJobID++;
-    ZSTD_pthread_cond_broadcast(&serialState->cond);
+    /* else : our job was skipped, the turn already went past us : it must not be advanced a second time,
+     * or a later job would find its own turn gone and skip its serial step too */
     ZSTD_pthread_mutex_unlock(&serialState->mutex);
 
     if (seqStore.size > 0) {
